@@ -439,6 +439,12 @@ def run_routes_case(f1, pl1, f2, pl2, swap, split):
     got = sorted({key(o) for o in comp.query(list(query))})
     if got != want or len(comp.query(list(query))) != len(want):
         return False
+    # the documented forms of the query argument: list, FilterSet, a single Filter, nothing
+    forms = [FilterSet(list(query))] + ([query[0]] if len(query) == 1 else []) + ([None] if not query else [])
+    for qf in forms:
+        for src_, w_ in ((comp, want), (A, naive(a_objs, fa))):
+            if sorted({key(o) for o in src_.query(qf)}) != sorted(w_):
+                return False
     # a member queried directly applies its own attached filters, and only those
     if sorted(key(o) for o in A.query(list(query))) != naive(a_objs, fa):
         return False
